@@ -561,3 +561,15 @@ def run_solver_file(path, solver, timeout_s):
 
 def sha(text):
     return hashlib.sha256(text.encode()).hexdigest()
+
+
+def literal_prefix(t):
+    """the leading string literal of a term `"lit" ++ rest` (or of a literal), else None: what is known of a symbolic string's text up to there"""
+    try:
+        if z3.is_string_value(t):
+            return t.as_string()
+        if z3.is_app(t) and t.decl().kind() == z3.Z3_OP_SEQ_CONCAT and t.num_args() >= 1 and z3.is_string_value(t.arg(0)):
+            return t.arg(0).as_string()
+    except Exception:  # noqa
+        return None
+    return None
